@@ -7,6 +7,13 @@ Validators, claim hashes and nonces are naturals. A claim hash is used both as i
 the store order of competing attestations at one nonce (the harness passes the real 32-byte
 tmhash as a number). Voting power is an *argument of each tally* (`GetLastValidatorPower`,
 `GetLastTotalPower` are read at tally time), so it may change arbitrarily between vote and tally.
+The functions below take the total as a parameter, like the Go code reads it from a separate
+store key; the histories of `Props/C02.lean` pass `totalOf table` (ASSUMPTION on x/staking:
+`LastTotalPower` is the sum of the `LastValidatorPower` records, see `totalOf`).
+
+Ghost state (never read by the executable part, never printed by the driver): `epoch`,
+`epochStart` and `log`, the list of every observation made by `TryAttestation` since genesis. `Props/C02.lean` ties the log to the executable state (observed flags, cursor,
+`minted`) and to the op history.
 Core Lean only.
 -/
 namespace Paloma.Oracle
@@ -21,28 +28,46 @@ structure Att where
   amount : Nat := 0      -- what the claim mints when applied (part of the claim, covered by the hash)
 deriving Repr, DecidableEq
 
-/-- one applied effect: claim `(nonce, hash)` applied when the cursor stood at `cursorBefore` -/
-structure Effect where
+/-- ghost: one observation made by `TryAttestation`: claim `(nonce, hash)` was marked observed and handed
+to the attestation handler (its effect is applied iff `applicable`) when the cursor stood at `cursorBefore`. -/
+structure Obs where
+  epoch : Nat
   nonce : Nat
   hash : Nat
   cursorBefore : Nat
+  eth : Nat
+  applicable : Bool
+  amount : Nat
+  /-- the vote list of the attestation at that moment -/
+  voters : List Nat
 deriving Repr, DecidableEq
+
+/-- what an observation minted -/
+def Obs.mint (o : Obs) : Nat := if o.applicable then o.amount else 0
 
 structure St where
   lastObserved : Nat
   lastEth : Nat
   valNonce : List (Nat × Nat)     -- validators that have a stored nonce record
   atts : List Att
-  /-- ghost: effects applied / observations made since the last governance reset -/
-  effects : List Effect
-  observations : List Effect
-  epoch : Nat
   /-- total minted by applied claims since genesis (the observable effect) -/
   minted : Nat := 0
+  /-- ghost: number of governance resets so far -/
+  epoch : Nat := 0
+  /-- ghost: the cursor value installed by the last governance reset (0 at genesis) -/
+  epochStart : Nat := 0
+  /-- ghost: every observation since genesis, oldest first -/
+  log : List Obs := []
 deriving Repr
 
 def St.init : St :=
-  { lastObserved := 0, lastEth := 0, valNonce := [], atts := [], effects := [], observations := [], epoch := 0 }
+  { lastObserved := 0, lastEth := 0, valNonce := [], atts := [] }
+
+/-- claims that took effect (were observed) since the last governance reset -/
+def St.observations (s : St) : List Obs := s.log.filter (fun o => o.epoch == s.epoch)
+
+/-- observed claims whose effect the handler could apply, since the last governance reset -/
+def St.effects (s : St) : List Obs := s.observations.filter (fun o => o.applicable)
 
 def lookupNonce (l : List (Nat × Nat)) (v : Nat) : Option Nat :=
   (l.find? (fun p => p.1 == v)).map (·.2)
@@ -103,19 +128,36 @@ def noFault : EventFault := fun _ _ => false
 
 def faultOf (l : List (Nat × Nat)) : EventFault := fun n h => l.any (fun p => p.1 == n && p.2 == h)
 
+/-- `types.AttestationVotesPowerThreshold` and the divisor in `TryAttestation`; `Props/C02.lean`
+(`threshold_as_in_source`) proves them equal to the constants extracted from the current source -/
+def votesPowerThreshold : Nat := 66
+def powerDivisor : Nat := 100
+
+/-- `requiredPower := AttestationVotesPowerThreshold.Mul(totalPower).Quo(100)` -/
+def requiredPower (total : Nat) : Nat := votesPowerThreshold * total / powerDivisor
+
+/-- ghost record of the observation of attestation `a` out of state `s` -/
+def mkObs (s : St) (a : Att) : Obs :=
+  { epoch := s.epoch, nonce := a.nonce, hash := a.hash, cursorBefore := s.lastObserved, eth := a.eth,
+    applicable := a.applicable, amount := a.amount, voters := a.votes }
+
+/-- the state change of a successful `TryAttestation`: height recorded, cursor moved, attestation stored as
+observed, claim handed to the handler (`processAttestation`; the effect is `minted`) -/
+def observe (s : St) (a : Att) : St :=
+  { s with lastObserved := a.nonce, lastEth := a.eth,
+           atts := putAtt s.atts { a with observed := true },
+           minted := if a.applicable then s.minted + a.amount else s.minted,
+           log := s.log ++ [mkObs s a] }
+
 /-- `TryAttestation` on a (snapshot of an) attestation at nonce `lastObserved+1`. -/
 def tryAtt (s : St) (a : Att) (power : Nat → Nat) (total : Nat) (ef : EventFault := noFault) : St × TryRes :=
   if a.observed then (s, .abort) else
-  if !(reaches power (66 * total / 100) a.votes 0) then (s, .nothing) else
+  if !(reaches power (requiredPower total) a.votes 0) then (s, .nothing) else
   if a.nonce ≠ s.lastObserved + 1 then (s, .abort) else
-  -- the remote height is checked before the cursor moves (since /repo 5e19ceda): a refusal changes nothing
+  -- `SetLastObservedEthereumBlockHeight` runs first: a refused remote height leaves the oracle untouched
+  -- (before 5e19ceda the cursor had already been moved here: the nonce was consumed without an observation)
   if s.lastEth > a.eth then (s, .abort) else
-  let e : Effect := { nonce := a.nonce, hash := a.hash, cursorBefore := s.lastObserved }
-  ({ s with lastObserved := a.nonce, lastEth := a.eth,
-            atts := putAtt s.atts { a with observed := true },
-            effects := if a.applicable then s.effects ++ [e] else s.effects,
-            observations := s.observations ++ [e],
-            minted := if a.applicable then s.minted + a.amount else s.minted },
+  (observe s a,
    -- the event is emitted AFTER the claim was applied: a failure there loses nothing but the event
    if ef a.nonce a.hash then .eventFailed else .observedOk)
 
@@ -162,11 +204,16 @@ def catchUp (s : St) : St :=
 /-- `overrideNonce` (governance proposal or chain activation): a new epoch -/
 def override (s : St) (n : Nat) : St :=
   { s with lastObserved := n, valNonce := s.valNonce.map (fun p => (p.1, n)),
-           effects := [], observations := [], epoch := s.epoch + 1 }
+           epoch := s.epoch + 1, epochStart := n }
 
 def powerOf (tbl : List (Nat × Nat)) (v : Nat) : Nat :=
   match tbl.find? (fun p => p.1 == v) with
   | some p => p.2
   | none => 0
+
+/-- `GetLastTotalPower`. ASSUMPTION (x/staking, `ApplyAndReturnValidatorSetUpdates`): the stored total
+is the sum of the stored `LastValidatorPower` records; bonded validators that never vote are simply
+further rows of the table. -/
+def totalOf (tbl : List (Nat × Nat)) : Nat := (tbl.map (·.2)).sum
 
 end Paloma.Oracle
